@@ -227,6 +227,15 @@ def special_unit():
                      D.op(single(T('double')), '()', [arg(T('int'), 'i')]), D.op(single(T('int')), '[]', [arg(T('size_t'), 'i')])]))
     for o in ops2 + cmp_:
         plan.append({'kind': 'binop', 'cls': 'gt.Op', 'op': o, 'entity': 'gt::Op::operator' + o})
+    # unary operators declared in front of binary ones
+    gt.append(D.cls('Ou', [D.ctor('Ou'), D.method(single(T('int')), 'objId', [], 1),
+                           D.op(single(T('gt::Ou')), '-', []), D.op(single(T('gt::Ou')), '-', [arg(T('gt::Ou', 1, '&'), 'o')]),
+                           D.op(single(T('gt::Ou')), '+', []), D.op(single(T('gt::Ou')), '*', [arg(T('gt::Ou', 1, '&'), 'o')]),
+                           D.op(single(T('gt::Ou')), '+', [arg(T('gt::Ou', 1, '&'), 'o')]),
+                           D.op(single(T('Ou')), '==', [arg(T('Ou', 1, '&'), 'o')])]))
+    for o in ('-', '*', '+', '=='):
+        plan.append({'kind': 'binop', 'cls': 'gt.Ou', 'op': o, 'entity': 'gt::Ou::operator' + o})
+    plan += [{'kind': 'unop', 'cls': 'gt.Ou', 'op': '-', 'entity': 'gt::Ou::operator-'}, {'kind': 'unop', 'cls': 'gt.Ou', 'op': '+', 'entity': 'gt::Ou::operator+'}]
     plan += [{'kind': 'unop', 'cls': 'gt.Op', 'op': '-', 'entity': 'gt::Op::operator-'},
              {'kind': 'unop', 'cls': 'gt.Op', 'op': '+', 'entity': 'gt::Op::operator+'},
              {'kind': 'callop', 'cls': 'gt.Op', 'entity': 'gt::Op::operator()'},
